@@ -55,6 +55,8 @@ DISPOSABLES = [
     [{"enter": "ok", "exit": "raise", "yields": "none"}],
     [{"enter": "ok", "exit": "susp_ok", "yields": "none"}],
     [{"enter": "ok", "exit": "ok", "yields": "none", "signals": True}],
+    # two failing cleanups, one of them with a BaseException that is not an Exception
+    [{"enter": "ok", "exit": "raise", "yields": "none"}, {"enter": "ok", "exit": "raise_base", "yields": "none"}],
     # two distinct disposables that compare equal; the later one is the resource a task waits for
     [{"enter": "ok", "exit": "ok", "yields": "none", "twin": True}, {"enter": "ok", "exit": "ok", "yields": "none", "twin": True, "signals": True}],
 ]
@@ -94,13 +96,13 @@ def programs(tier: str):
     kmax = BOUNDS[tier]["max_spawns"]
     for k in range(0, kmax + 1):
         for combo in itertools.combinations_with_replacement(range(len(SPAWNS)), k):
-            for ending, cancels in (("return", 0), ("raise", 0), ("raise_base", 0), ("raise_falsy", 0), ("raise_badstr", 0), ("return", 1)):
+            for ending, cancels in (("return", 0), ("raise", 0), ("raise_base", 0), ("raise_falsy", 0), ("raise_badstr", 0), ("return", 1), ("raise", 1)):
                 for outer in (False, True):
-                    if outer and (k == kmax or ending in ("raise_base", "raise_falsy", "raise_badstr")):
+                    if outer and (k == kmax or ending in ("raise_base", "raise_falsy", "raise_badstr") or (ending == "raise" and cancels)):
                         continue
                     yield _prog(combo, ending, cancels, outer)
                     if not outer and 1 <= k <= 2:
-                        for d in (1, 2):
+                        for d in (1, 2, 4):
                             yield _prog(combo, ending, cancels, outer, d)
     # two environment events landing in the same loop iteration (a spawned task ends in the very
     # iteration in which the body ends): the exit runs before the group has processed the task's end
@@ -123,7 +125,7 @@ def programs(tier: str):
     # are released before the block waits for its tasks
     for n_wait in (1, 2):
         for ending, cancels in (("return", 0), ("raise", 0), ("return", 1)):
-            for dvar in (3, 4):
+            for dvar in (3, 5):
                 p = _prog((), ending, cancels, False, dvar)
                 p["block"]["spawns"] = [{"kind": "wait_dispose", "pauses": 0} for _ in range(n_wait)] + [dict(SPAWNS[1])]
                 yield p
